@@ -101,3 +101,60 @@ INSTANCES = {("A", 0): a0, ("A", 1): a1, ("B", 0): b0, ("C", 0): c0, ("Falsy", 0
 INSTANCE_NAMES = {("A", 0): "a0", ("A", 1): "a1", ("B", 0): "b0", ("C", 0): "c0", ("Falsy", 0): "f0", ("AC", 0): "ac0", ("object", 0): "o0"}
 ENUM_MEMBERS = {"E": [E.a, E.b], "IE": [IE.x, IE.y]}
 ENUM_MEMBER_NAMES = {"E": ["E.a", "E.b"], "IE": ["IE.x", "IE.y"]}
+
+
+# ---------------------------------------------------------------------------
+# containers for the executed-program stream of the C02 check (harness/c02_programs.py): `x in C` / `x not in C`
+# against containers whose own __contains__ is not "equals one of the elements obtained by iterating C"
+class Evens:
+    """iterates 0, 2 but contains every even int"""
+
+    def __iter__(self):
+        return iter((0, 2))
+
+    def __contains__(self, item):
+        return type(item) is int and item % 2 == 0
+
+
+class OnlyContains:
+    """no __iter__: list(C) fails, so no constraint can be built"""
+
+    def __contains__(self, item):
+        return item == "ab"
+
+
+class Prefixes:
+    """iterates its words, contains every prefix of a word (like a trie)"""
+
+    def __init__(self, *words):
+        self.words = words
+
+    def __iter__(self):
+        return iter(self.words)
+
+    def __contains__(self, item):
+        return isinstance(item, str) and any(w.startswith(item) for w in self.words)
+
+
+BA = bytearray(b"abc")
+RNG3 = range(3)
+DCT = {"ab": 1, "c": 2}
+FS = frozenset({1, "ab", None})
+EVENS = Evens()
+ONLYC = OnlyContains()
+PREF = Prefixes("abc", "zz")
+
+
+# subjects of the `case <pattern> as p` programs
+import dataclasses as _dc
+
+
+@_dc.dataclass
+class Point:
+    x: int
+    y: int
+
+
+@_dc.dataclass
+class Outer:
+    n: object
